@@ -209,6 +209,206 @@ var locks = []lockSpec{
 	{"pkg/v3/coordinator/coordinator.go", "coordinator", "mu", nil},
 }
 
+// ---------------------------------------------------------------- decision expressions translated to Lean
+//
+// exprSpec selects ONE boolean (or arithmetic) expression of the source and translates it into a Lean definition
+// `Gen.Src.<Lean>`. Leaves of the expression (identifiers, selectors, index expressions, len(...) calls, method calls)
+// are looked up by their printed text in Vars and become parameters of the definition. Props files prove that the
+// hand-written model's decision function equals this regenerated definition, so a changed operator or operand in the
+// code breaks a theorem on the next run.
+type exprSpec struct {
+	File  string      `json:"file"`
+	Func  string      `json:"func"`
+	Kind  string      `json:"kind"`  // "cond" (if/for conditions, in source order), "assign" (right-hand sides / return values)
+	Match string      `json:"match"` // the selected expression is the first one of that kind whose printed text contains Match
+	Lean  string      `json:"lean"`  // name of the generated definition: AutoVerif.Gen.Src.<lean>
+	Vars  [][3]string `json:"vars"`  // {go text of a leaf, lean parameter name, lean type Nat|Int|Bool|String}
+}
+
+var exprs []exprSpec // loaded from extract/exprs.d/*.json (one file per property)
+
+func loadExprs(dir string) {
+	files, _ := filepath.Glob(filepath.Join(dir, "*.json"))
+	sort.Strings(files)
+	for _, f := range files {
+		b, err := os.ReadFile(f)
+		if err != nil {
+			continue
+		}
+		var list []exprSpec
+		if err := json.Unmarshal(b, &list); err != nil {
+			fmt.Fprintf(os.Stderr, "extract: %s: %v\n", f, err)
+			os.Exit(2)
+		}
+		exprs = append(exprs, list...)
+	}
+}
+
+func leanOp(t token.Token) (string, bool) {
+	switch t {
+	case token.LAND:
+		return "&&", true
+	case token.LOR:
+		return "||", true
+	}
+	return "", false
+}
+
+// trExpr translates e; returns lean text and whether the result is a Bool (else numeric)
+func trExpr(fset *token.FileSet, e ast.Expr, vars map[string][2]string, used map[string]bool) (string, bool, error) {
+	txt := printNode(fset, e)
+	if v, ok := vars[txt]; ok {
+		used[txt] = true
+		return v[0], v[1] == "Bool", nil
+	}
+	switch x := e.(type) {
+	case *ast.ParenExpr:
+		s, b, err := trExpr(fset, x.X, vars, used)
+		return "(" + s + ")", b, err
+	case *ast.BasicLit:
+		if x.Kind == token.INT {
+			return strings.ReplaceAll(x.Value, "_", ""), false, nil
+		}
+	case *ast.UnaryExpr:
+		if x.Op == token.NOT {
+			s, _, err := trExpr(fset, x.X, vars, used)
+			return "(!" + s + ")", true, err
+		}
+	case *ast.CallExpr:
+		// numeric conversions are transparent in the unbounded model (wrap-around is proved separately where it matters)
+		if id, ok := x.Fun.(*ast.Ident); ok && len(x.Args) == 1 {
+			switch id.Name {
+			case "int", "int64", "uint64", "uint32", "int32", "uint":
+				return trExpr(fset, x.Args[0], vars, used)
+			}
+		}
+	case *ast.BinaryExpr:
+		a, _, err := trExpr(fset, x.X, vars, used)
+		if err != nil {
+			return "", false, err
+		}
+		b, _, err := trExpr(fset, x.Y, vars, used)
+		if err != nil {
+			return "", false, err
+		}
+		if op, ok := leanOp(x.Op); ok {
+			return "(" + a + " " + op + " " + b + ")", true, nil
+		}
+		switch x.Op {
+		case token.EQL:
+			return "decide (" + a + " = " + b + ")", true, nil
+		case token.NEQ:
+			return "decide (" + a + " ≠ " + b + ")", true, nil
+		case token.LSS:
+			return "decide (" + a + " < " + b + ")", true, nil
+		case token.LEQ:
+			return "decide (" + a + " ≤ " + b + ")", true, nil
+		case token.GTR:
+			return "decide (" + a + " > " + b + ")", true, nil
+		case token.GEQ:
+			return "decide (" + a + " ≥ " + b + ")", true, nil
+		case token.ADD:
+			return "(" + a + " + " + b + ")", false, nil
+		case token.MUL:
+			return "(" + a + " * " + b + ")", false, nil
+		}
+	}
+	return "", false, fmt.Errorf("untranslatable sub-expression `%s`", txt)
+}
+
+func funcDecl(fi *fileInfo, name string) *ast.FuncDecl {
+	for _, d := range fi.f.Decls {
+		fd, ok := d.(*ast.FuncDecl)
+		if !ok || fd.Body == nil {
+			continue
+		}
+		n := fd.Name.Name
+		if r := recvName(fd); r != "" {
+			n = r + "." + n
+		}
+		if n == name {
+			return fd
+		}
+	}
+	return nil
+}
+
+func translateExprs(repo string) (string, map[string]string) {
+	var b strings.Builder
+	errs := map[string]string{}
+	b.WriteString("\n/-! decision expressions translated from the source (see extract/main.go `exprs`) -/\nnamespace Src\n\n")
+	for _, sp := range exprs {
+		fi, err := load(repo, sp.File)
+		if err != nil {
+			errs[sp.Lean] = err.Error()
+			continue
+		}
+		fd := funcDecl(fi, sp.Func)
+		if fd == nil {
+			errs[sp.Lean] = "function not found: " + sp.Func
+			continue
+		}
+		var cands []ast.Expr
+		ast.Inspect(fd.Body, func(n ast.Node) bool {
+			switch x := n.(type) {
+			case *ast.IfStmt:
+				if sp.Kind == "cond" {
+					cands = append(cands, x.Cond)
+				}
+			case *ast.ForStmt:
+				if sp.Kind == "cond" && x.Cond != nil {
+					cands = append(cands, x.Cond)
+				}
+			case *ast.AssignStmt:
+				if sp.Kind == "assign" {
+					cands = append(cands, x.Rhs...)
+				}
+			case *ast.ReturnStmt:
+				if sp.Kind == "assign" {
+					cands = append(cands, x.Results...)
+				}
+			}
+			return true
+		})
+		norm := func(x string) string { return strings.Join(strings.Fields(x), "") }
+		var pick ast.Expr
+		for _, c := range cands {
+			if strings.Contains(norm(printNode(fi.fset, c)), norm(sp.Match)) {
+				pick = c
+				break
+			}
+		}
+		vars := map[string][2]string{}
+		for _, v := range sp.Vars {
+			vars[v[0]] = [2]string{v[1], v[2]}
+		}
+		params := ""
+		for _, v := range sp.Vars {
+			params += fmt.Sprintf(" (%s : %s)", v[1], v[2])
+		}
+		if pick == nil {
+			errs[sp.Lean] = "no expression of kind " + sp.Kind + " contains `" + sp.Match + "`"
+			// emit a definition that cannot match the model, so that the tie theorem fails loudly
+			b.WriteString(fmt.Sprintf("/-- %s : %s — EXPRESSION NOT FOUND IN SOURCE -/\ndef %s%s : Option Bool := none\n\n", sp.File, sp.Func, sp.Lean, params))
+			continue
+		}
+		used := map[string]bool{}
+		lean, isBool, err := trExpr(fi.fset, pick, vars, used)
+		if err != nil {
+			errs[sp.Lean] = err.Error()
+			b.WriteString(fmt.Sprintf("/-- %s : %s — %s -/\ndef %s%s : Option Bool := none\n\n", sp.File, sp.Func, strings.ReplaceAll(err.Error(), "-/", "- /"), sp.Lean, params))
+			continue
+		}
+		ty := "Nat"
+		if isBool {
+			ty = "Bool"
+		}
+		b.WriteString(fmt.Sprintf("/-- %s : %s\n    `%s` -/\ndef %s%s : %s :=\n  %s\n\n", sp.File, sp.Func, strings.ReplaceAll(printNode(fi.fset, pick), "-/", "- /"), sp.Lean, params, ty, lean))
+	}
+	b.WriteString("end Src\n")
+	return b.String(), errs
+}
+
 var timeConsts = map[string]int64{
 	"Nanosecond": 1, "Microsecond": 1e3, "Millisecond": 1e6,
 	"Second": 1e9, "Minute": 60e9, "Hour": 3600e9,
@@ -417,6 +617,11 @@ func main() {
 		os.Exit(2)
 	}
 	repo, outDir, leanFile := os.Args[1], os.Args[2], os.Args[3]
+	exprDir := filepath.Join(filepath.Dir(os.Args[0]), "..", "extract", "exprs.d")
+	if len(os.Args) > 4 {
+		exprDir = os.Args[4]
+	}
+	loadExprs(exprDir)
 	facts := map[string]any{}
 	cvals := map[string]string{}
 	cerrs := map[string]string{}
@@ -589,7 +794,15 @@ func main() {
 	for _, n := range names {
 		b.WriteString(byLean[n])
 	}
+	srcText, srcErrs := translateExprs(repo)
+	b.WriteString(srcText)
 	b.WriteString("\nend AutoVerif.Gen\n")
+	if len(srcErrs) > 0 {
+		jb2, _ := json.MarshalIndent(srcErrs, "", " ")
+		_ = os.WriteFile(filepath.Join(outDir, "expr_errors.json"), jb2, 0o644)
+	} else {
+		_ = os.Remove(filepath.Join(outDir, "expr_errors.json"))
+	}
 	old, _ := os.ReadFile(leanFile)
 	if string(old) != b.String() {
 		if err := os.MkdirAll(filepath.Dir(leanFile), 0o755); err != nil {
